@@ -319,7 +319,16 @@ fn gen_kind(s: &mut Incent, rng: &mut Rng, ctx: &mut Ctx, o: &crate::scen::incen
                 1 => fee.saturating_add(rng.range128(1, 50)),
                 _ => fee,
             };
-            let extra = if rng.chance(1, 15) { Some((*rng.pick(&[A_USDC, A_WHALE, A_LP]), rng.range128(1, 50))) } else { None };
+            let mut extra = if rng.chance(1, 15) { Some((*rng.pick(&[A_USDC, A_WHALE, A_LP]), rng.range128(1, 50))) } else { None };
+            // hostile: the declared amount attached in a DIFFERENT native denom, nothing in the flow's own
+            if s.is_native(asset) && !same && rng.chance(1, 12) {
+                let other = if asset == A_USDC { A_WHALE } else { A_USDC };
+                if s.is_native(other) && o.bal[actor][other] >= declared {
+                    extra = Some((other, declared));
+                    sent = 0;
+                    ctx.probe("gen_flow_amount_in_wrong_denom");
+                }
+            }
             let buf = s.cfg.max_buffer;
             let start = match rng.below(24) {
                 0 => Some(e),
@@ -467,7 +476,9 @@ fn gen_kind(s: &mut Incent, rng: &mut Rng, ctx: &mut Ctx, o: &crate::scen::incen
                 2 => 3,
                 3 => rng.range(4, 16) as u32,
                 // long gaps while several long flows run: (flows x unclaimed epochs) beyond 100
-                4..=9 if s.cfg.allow.long_flows && o.flows.len() >= 2 => rng.range(34, 70) as u32,
+                4..=8 if s.cfg.allow.long_flows && o.flows.len() >= 2 => rng.range(34, 70) as u32,
+                // claim gaps beyond the 100-epoch claim cap
+                9 | 10 if s.cfg.allow.long_flows && !o.flows.is_empty() => rng.range(95, 135) as u32,
                 _ => 1,
             };
             if n >= 34 {
